@@ -358,7 +358,7 @@ class Job(Resource):
                 self.failure_status = JobFailureStatus.DEPENDENCY
                 self._readyEvent.set()
 
-        if self.unsatisfied == 0:
+        if self.unsatisfied == 0 and self.state == JobState.WAITING:
             logger.info("Job %s is ready to run", self)
             # We are ready
             self.state = JobState.READY
